@@ -72,6 +72,42 @@ class RefBucket(object):
       self.t = now
 
 
+class RefLazyBucket(object):
+  """Token bucket with *lazy* refill (the semantics the property's "twice the
+  burst" allowance describes): tokens already in the bucket are spent without
+  looking at the clock; only when they do not suffice is the bucket topped up
+  for the time since its last top-up, capped at the capacity.  A blocking
+  acquisition sleeps exactly until the missing tokens have accrued and then goes
+  into debt by the cost.  A limit change keeps the amount already consumed."""
+
+  def __init__(self, capacity, rate, now):
+    self.capacity, self.rate = float(capacity), float(rate)
+    self.tokens = float(capacity)
+    self.stamp = now
+
+  def available(self, cost, now):
+    if self.tokens >= cost:
+      return True
+    self.tokens = min(self.capacity, self.tokens + (now - self.stamp) * self.rate)
+    self.stamp = now
+    return self.tokens >= cost
+
+  def acquire(self, cost, now, blocking):
+    """-> (granted, wait seconds)"""
+    if self.available(cost, now):
+      self.tokens -= cost
+      return True, 0.0
+    if not blocking:
+      return False, 0.0
+    wait = max(0.0, self.stamp + (cost - self.tokens) / self.rate - now)
+    self.tokens -= cost
+    return True, wait
+
+  def set_limits(self, capacity, rate):
+    self.tokens += float(capacity) - self.capacity
+    self.capacity, self.rate = float(capacity), float(rate)
+
+
 def ref_parse_retention(s):
   """seconds-per-point:points with unit suffixes; duration -> duration // precision."""
   units = {'s': 1, 'm': 60, 'h': 3600, 'd': 86400, 'w': 604800, 'y': 31536000}
